@@ -261,7 +261,7 @@ pub fn gen_net(rng: &mut Rng, opts: &GenOpts) -> NetCfg {
     let input = if opts.image && (opts.conv || opts.deconv || opts.maxpool) {
         ShapeCfg::Image(rng.range(1, 2), rng.range(3, 6), rng.range(3, 6))
     } else {
-        ShapeCfg::Flat(if scale() && rng.chance(0.4) { rng.pick(&[30usize, 65, 100]) } else { rng.pick(&[2usize, 3, 4, 5, 9]) })
+        ShapeCfg::Flat(if scale() && rng.chance(0.4) { rng.pick(&[30usize, 65, 100, 100, 1024, 2100]) } else { rng.pick(&[2usize, 3, 4, 5, 9]) })
     };
     let mut layers: Vec<LayerCfg> = Vec::new();
     let mut cur = input;
@@ -300,7 +300,17 @@ pub fn gen_net(rng: &mut Rng, opts: &GenOpts) -> NetCfg {
             2 => gen_maxpool(rng, cur),
             3 => gen_feedback(rng, opts, cur, 5),
             _ => Some(LayerCfg::Dense {
-                out: if scale() && rng.chance(0.6) { rng.pick(&[16usize, 25, 32, 48, 64, 65, 70, 100, 130]) } else { rng.pick(&[1usize, 2, 3, 4, 4, 5, 9]) },
+                // scale stratum: wide layers, and now and then a very wide one (inner products
+                // over more than a thousand terms); never two very wide layers in a row
+                out: if scale() && cur.count() < 1000 && rng.chance(0.6) {
+                    if rng.chance(0.2) {
+                        rng.pick(&[1024usize, 1100, 2048, 2100])
+                    } else {
+                        rng.pick(&[16usize, 25, 32, 48, 64, 65, 70, 100, 130])
+                    }
+                } else {
+                    rng.pick(&[1usize, 2, 3, 4, 4, 5, 9])
+                },
                 act: act(rng),
                 bias: rng.chance(0.6),
                 dropout: dropout(rng, opts),
